@@ -1122,6 +1122,13 @@ func (ex *Exec) builtin(b *ssa.Builtin, args []Value, cc *ssa.CallCommon, site s
 			return int64(len(x))
 		case *Term:
 			return lower(mkStrLen(x))
+		case *blobVal:
+			if x.n != nil {
+				return lower(x.n)
+			}
+			return int64(0)
+		case BytesView:
+			return lower(mkStrLen(x.t))
 		case *Map:
 			if x == nil {
 				return int64(0)
